@@ -412,8 +412,11 @@ def run(res, tier):
         p_ = P.pos_of(f, node)
         base = lf.IN.get(p_[0]) if p_ else None
         return set(lf._transfer(p_[0], base, upto=p_[1])) if base is not None else set()
-    rems = [c for c in f.walk() if c['k'] == 'CXXMemberCallExpr' and (c.get('q') or '').split('::')[-1] in ('Remove', 'RemoveWithDefault') and c.receiver() is not None
-            and A.strip_casts(c.receiver()).get('n') == '_registeredClients']
+    from msa import ip as IP3
+    is_rem = lambda c: c['k'] == 'CXXMemberCallExpr' and (c.get('q') or '').split('::')[-1] in ('Remove', 'RemoveWithDefault') and c.receiver() is not None \
+        and A.strip_casts(c.receiver()).get('n') == '_registeredClients'
+    # the removal itself, or the call of a private helper that performs it (msa/ip.py)
+    rems = [top for (top, leaves) in IP3.may_sites(fx, f, is_rem, '^' + TP + '::(?!Shutdown)')]
     if not rems:
         raise AnalysisBroken('UNREGISTER-ATOMIC: the removal from _registeredClients was not found in UnregisterClient')
     for rm in rems:
@@ -421,10 +424,65 @@ def run(res, tier):
         # every path to the removal decided "nothing outstanding" under the guard that is still held — or could not register for the wake-up (Put() failed: there is nothing it could wait for)
         paths, complete = C.paths_between(f, (f.entry, -1), P.pos_of(f, rm))
         okr = complete and bool(paths)
+        def ev_bool(e, asg):
+            """truth value of e under the branch decisions of the path (None if they do not determine it)"""
+            e0 = e
+            while True:
+                if e0['i'] in asg:
+                    return asg[e0['i']]
+                e1 = A.strip_casts(e0)
+                if e1 is e0:
+                    break
+                e0 = e1
+            if e0['k'] == 'UnaryOperator' and e0.get('op') == '!':
+                v = ev_bool(e0['ch'][0], asg)
+                return None if v is None else (not v)
+            if e0['k'] == 'BinaryOperator' and e0.get('op') in ('&&', '||'):
+                a_, b_ = ev_bool(e0['ch'][0], asg), ev_bool(e0['ch'][1], asg)
+                if e0['op'] == '&&':
+                    return False if (a_ is False or b_ is False) else (True if (a_ and b_) else None)
+                return True if (a_ or b_) else (False if (a_ is False and b_ is False) else None)
+            return None
         for asg in paths:
-            okp = False
+            # a path that tests a named bool local against what its own initialiser evaluated to under the same decisions is not feasible
+            infeasible = False
             for (cid, truth) in asg.items():
-                for (cn, t) in A.implied_atoms(f.nodes[cid], truth):
+                core, pol = A.bool_polarity(f.nodes[cid], truth)
+                if core['k'] == 'DeclRefExpr' and core.get('d') is not None:
+                    ini = G.local_init(f, core)
+                    if ini is not core:
+                        v_ = ev_bool(ini, asg)
+                        if v_ is not None and v_ != pol:
+                            infeasible = True
+            if infeasible:
+                continue
+            def derive(e, val):
+                """atoms that follow from `e == val` given the decisions of the path: a false conjunction whose one operand is known true makes the other false, …"""
+                e = A.strip_casts(e)
+                if e['k'] == 'UnaryOperator' and e.get('op') == '!':
+                    return derive(e['ch'][0], not val)
+                if e['k'] == 'BinaryOperator' and e.get('op') in ('&&', '||'):
+                    a_, b_ = e['ch'][0], e['ch'][1]
+                    strong = (e['op'] == '&&') == val            # (a && b) true / (a || b) false: both operands are determined
+                    if strong:
+                        return derive(a_, val) + derive(b_, val)
+                    other = (e['op'] == '&&')                    # value of the known operand that forces the other one
+                    if ev_bool(a_, asg) is other:
+                        return derive(b_, val)
+                    if ev_bool(b_, asg) is other:
+                        return derive(a_, val)
+                    return []
+                return [(e, val)]
+            extra_atoms = []
+            for (cid, truth) in asg.items():
+                core, pol = A.bool_polarity(f.nodes[cid], truth)
+                if core['k'] == 'DeclRefExpr' and core.get('d') is not None:
+                    ini = G.local_init(f, core)
+                    if ini is not core:
+                        extra_atoms += derive(ini, pol)
+            okp = False
+            for (cid, truth) in list(asg.items()) + [(None, None)]:
+                for (cn, t) in (A.implied_atoms(f.nodes[cid], truth) if cid is not None else extra_atoms):
                     core, pol = A.bool_polarity(cn, t)
                     if pol is False and core.is_call() and (core.get('q') or '').endswith('::DoesClientHaveMessagesOutstandingUnsafe') and (guard_ids_at(core) & ids):
                         okp = True
